@@ -76,11 +76,52 @@ def opTables (j : Json) : Except String Json := do
     ("clockwise_about", jlist jnats (vs.map (Tab.clockwiseAbout L))),
     ("adjacent_plaquettes", jlist (jlist jpairN) (np.map (Tab.adjacentPlaquettes ps)))])
 
+
+/-! ### C04: CNF encodings -/
+
+def jformula (f : Cnf.Formula) : Json := jlist (fun c => jints (c.map Cnf.toDimacs)) f
+
+def assignOfModel (m : List Int) : Nat → Bool := fun v => v != 0 && decide (m.getD (v - 1) 0 > 0)
+
+def opCnf (j : Json) : Except String Json := do
+  let kind ← str (← field j "kind")
+  let ms ← match fieldOpt j "models" with | some m => listOf ints m | none => pure []
+  let wantCount ← match fieldOpt j "count" with | some b => bool b | none => pure false
+  let (f, nItems, k) ← match kind with
+    | "edge" => do
+      let L ← parseLat j
+      let k ← nat (← field j "k")
+      let fixed ← listOf pairN (← field j "fixed")
+      if fixed.any (fun p => p.1 ≥ k || p.2 ≥ L.E) then throw "precondition:fixed-range"
+      pure (Cnf.encodeEdge L k fixed, L.E, k)
+    | "lattice" => do
+      let L ← parseLat j
+      let fixed := Cnf.latticeFixed L
+      if fixed.any (fun p => p.1 ≥ 3 || p.2 ≥ L.E) then throw "precondition:fixed-range"
+      pure (Cnf.encodeEdge L 3 fixed, L.E, 3)
+    | "vertex" => do
+      let adj ← listOf pairN (← field j "adj")
+      let k ← nat (← field j "k")
+      pure (Cnf.encodeVertex adj k, Cnf.nVerticesOf adj, k)
+    | "dimer" => do
+      let L ← parseLat j
+      pure (Cnf.encodeDimer ((List.range L.nV).map (rotAt L)), L.E, 0)
+    | _ => throw "bad-kind"
+  let nvars := if kind == "dimer" then nItems else nItems * k
+  let dec := ms.map fun m =>
+    let a := assignOfModel m
+    if kind == "dimer" then (List.range nItems).map (Cnf.decodeDimer a) else (List.range nItems).map (Cnf.decode k a)
+  let sats := ms.map fun m => Cnf.sat (assignOfModel m) f
+  let cnt : Json := if wantCount && nvars ≤ 16 then jnat (Cnf.models nvars f).length else Json.null
+  pure (Json.mkObj [("cnf", jformula f), ("nvars", jnat nvars), ("decoded", jlist jnats dec),
+                    ("sat", Json.arr (sats.map Json.bool).toArray), ("count", cnt)])
+
 def dispatch (op : String) (j : Json) : Except String Json :=
   match op with
   | "plaquettes" => opPlaquettes j
   | "tables" => opTables j
   | "fluxes" => opFluxes j
+  | "cnf" => opCnf j
   | _ => throw "bad-op"
 
 def handle (line : String) : String :=
